@@ -125,6 +125,28 @@ pub fn run_jobs(ctx: &mut Ctx, op: &'static str, jobs: Vec<Job>) -> Vec<Done> {
         }
         let mut prov = imp::provider_for(vec![imp::entry_of(&job.case)]);
         let v = imp::validate_with(&job.case, req, &mut prov);
+        // every other case is validated a second time straight away (fresh provider, the other log level): whatever the
+        // library remembers from the validation it has just finished — accepted or refused — must not change the verdict
+        if pre.len() % 2 == 0 && job.class != "path-literal-plus" {
+            if let Some(req2) = imp::build_request(&job.case) {
+                let mut prov2 = imp::provider_for(vec![imp::entry_of(&job.case)]);
+                let v2 = imp::validate_with(&job.case, req2, &mut prov2);
+                let (l1, l2) = (imp_line(&job.case, &v, &submitted_uri), imp_line(&job.case, &v2, &submitted_uri));
+                ctx.rep.count("evaluations.immediate_repeat");
+                if l1 != l2 {
+                    ctx.rep.fail(Failure {
+                        kind: "ORACLE",
+                        op: op.to_string(),
+                        class: format!("{}-immediate-repeat", job.class),
+                        input: format!("VALIDATE {}", job.case.fields(&path, query.as_deref(), &other)),
+                        imp: l2,
+                        model: String::new(),
+                        spec: l1,
+                        clause: format!("the same request validated twice in a row (same thread, fresh provider) gives two different outcomes — {}", job.case.describe()),
+                    });
+                }
+            }
+        }
         // tighter tie: for a share of the cases also compare the canonical request bytes, the extracted
         // parameters and the string-to-sign (diagnostic, unstable API) with the model
         let is_huge = *huge.last().unwrap();
